@@ -386,6 +386,23 @@ func c14Case(rt *rapid.T, rec *ev.Rec) {
 		rec.Case(hsShort(desc, 1000), false, "failed")
 		rt.Fatalf("C14 violated at step %d: %s\nhistory: %s", step, fmt.Sprintf(f, a...), desc)
 	}
+	// AccountState handles are kept by their users (a transaction handler fetches the sender's account once and goes
+	// on using it across the frame snapshots and roll-backs of the call context): half of the mutations go through
+	// the handle obtained when the account was first touched. ClearCache and a reload give up all handles (the
+	// world state drops its table of handed-out accounts there); GetSnapshot and Reset do not.
+	handles := map[int]state.AccountState{}
+	oldHandleUses := 0
+	acc := func(acct int) state.AccountState {
+		if h, ok := handles[acct]; ok && rapid.Bool().Draw(rt, "viaKeptHandle") {
+			oldHandleUses++
+			return h
+		}
+		h := ws.GetAccountState(c14ID(acct))
+		if _, ok := handles[acct]; !ok {
+			handles[acct] = h
+		}
+		return h
+	}
 	checkAll := func(step int) {
 		for k, s := range snaps {
 			ro := rapid.IntRange(0, 3).Draw(rt, "viaReadOnly") == 0
@@ -394,6 +411,14 @@ func c14Case(rt *rapid.T, rec *ev.Rec) {
 			}
 			if h := s.wss.StateHash(); !bytes.Equal(h, s.hash) {
 				fail(step, "snapshot #%d (taken at step %d) reported hash %x when taken, now %x", k, s.at, s.hash, h)
+			}
+		}
+		// what a kept handle shows is the live account (after a Reset: the account of the snapshot reset to)
+		for i := 0; i < c14Accounts; i++ {
+			if h, ok := handles[i]; ok {
+				if msg := c14CheckData(h, i, live.get(i), false); msg != "" {
+					fail(step, "the AccountState handle of account %d obtained earlier differs from the model: %s", i, msg)
+				}
 			}
 		}
 		mode := rapid.IntRange(0, 2).Draw(rt, "liveCheck")
@@ -424,7 +449,7 @@ func c14Case(rt *rapid.T, rec *ev.Rec) {
 			if kind == "zero" {
 				v = new(big.Int)
 			}
-			ws.GetAccountState(id).SetBalance(new(big.Int).Set(v))
+			acc(acct).SetBalance(new(big.Int).Set(v))
 			live.get(acct).balance = v
 			hist = append(hist, fmt.Sprintf("bal(%d,%s)", acct, v.Text(16)))
 		case "set":
@@ -433,20 +458,20 @@ func c14Case(rt *rapid.T, rec *ev.Rec) {
 			v := bytes.Repeat([]byte{rapid.Byte().Draw(rt, "vbyte") | 1}, n)
 			// (the "old value" results of SetValue / DeleteValue are not part of the statement: not decided)
 			hist = append(hist, fmt.Sprintf("set(%d,%x,%x)", acct, k, hsShortBytes(v)))
-			if _, err := ws.GetAccountState(id).SetValue(k, v); err != nil {
+			if _, err := acc(acct).SetValue(k, v); err != nil {
 				fail(step, "SetValue(%d,%x) error %v", acct, k, err)
 			}
 			live.get(acct).store[string(k)] = v
 		case "delete":
 			k := rapid.SampledFrom(c14Keys).Draw(rt, "key")
 			hist = append(hist, fmt.Sprintf("del(%d,%x)", acct, k))
-			if _, err := ws.GetAccountState(id).DeleteValue(k); err != nil {
+			if _, err := acc(acct).DeleteValue(k); err != nil {
 				fail(step, "DeleteValue(%d,%x) error %v", acct, k, err)
 			}
 			delete(live.get(acct).store, string(k))
 		case "wipe":
 			// make the account logically empty again (unless it is a contract)
-			as := ws.GetAccountState(id)
+			as := acc(acct)
 			a := live.get(acct)
 			for k := range a.store {
 				if _, err := as.DeleteValue([]byte(k)); err != nil {
@@ -564,6 +589,7 @@ func c14Case(rt *rapid.T, rec *ev.Rec) {
 			labels["has-reset"] = true
 		case "clearcache":
 			ws.ClearCache()
+			handles = map[int]state.AccountState{}
 			hist = append(hist, "clearcache")
 			labels["has-clearcache"] = true
 			if mutatedSinceSnapshot {
@@ -588,6 +614,7 @@ func c14Case(rt *rapid.T, rec *ev.Rec) {
 			} else {
 				ws = newState(state.NewWorldState(dbase, hash, nil, nil, nil))
 			}
+			handles = map[int]state.AccountState{}
 			hist = append(hist, "flush+reload("+how+")")
 			labels["has-reload"] = true
 			if mutatedSinceSnapshot {
@@ -621,6 +648,9 @@ func c14Case(rt *rapid.T, rec *ev.Rec) {
 	ls := []string{fmt.Sprintf("snapshots-%s", c14Bucket(len(snaps)))}
 	if nodeCache {
 		ls = append(ls, "node-cache-enabled")
+	}
+	if oldHandleUses > 0 {
+		ls = append(ls, "mutation-through-kept-handle")
 	}
 	for l := range labels {
 		ls = append(ls, l)
